@@ -18,6 +18,7 @@ SPEC = dict(
         dict(name="embed-cosine", shards=T(16, 16), timeout=T(300, 1500)),
         dict(name="embed-files", shards=T(16, 16), timeout=T(600, 3000)),
         dict(name="embed-search", shards=T(16, 16), timeout=T(600, 3000)),
+        dict(name="embed-history", shards=T(16, 16), timeout=T(600, 3000)),
              dict(name="gofuzz-FuzzEmbeddingFiles", kind="gofuzz", target="FuzzEmbeddingFiles", fuzztime=T(0, "90s"))],
     rule="embed-cosine: one evaluation = one generated pair (a,b) with CosineSimilarity(a,b), (b,a), (a,a), (b,b); clauses cosine-symmetry "
          "(bit-identical or within 1e-12), cosine-range ([-1-1e-9, 1+1e-9], NaN counts as outside), cosine-zero (exactly 0 for empty / all-zero "
@@ -36,7 +37,7 @@ SPEC = dict(
          "at every limit: order, score-nonfinite. A suspected violation is re-run with 6+6 repetitions and reported only if no pairing of a "
          "with-files run and a no-files run satisfies the clause; if the no-files runs disagree among themselves it is inconclusive. "
          "Non-trivial = distinct (database, query) where at least one entry's score actually rose with active files.",
-    floors=T({"evaluations": 75000, "distinct_nontrivial": 1000,
+    floors=T({"history-pairs-literal": 200, "history-pairs-after-growth": 150, "history-pairs-raised": 300, "evaluations": 75000, "distinct_nontrivial": 1000,
               "cos-random": 10000, "cos-self": 3000, "cos-zero": 4000, "cos-mismatch": 5000, "cos-empty": 1500, "cos-extreme": 4000,
               "files-truncation": 1600, "files-huge-count": 40, "files-wrong-dim": 90, "files-wordlen": 30, "files-zero": 7,
               "files-random": 115, "files-inflated": 8, "files-valid": 15, "files-valid-loaded": 20,
